@@ -8,6 +8,7 @@ import Flamego.Code.GoSem
 import Flamego.Model.Tree
 import Flamego.Model.Router
 import Flamego.Model.Classify
+import Flamego.Code.LibHTTP
 namespace Flamego.Lib
 open Flamego.GoSem
 
@@ -30,5 +31,31 @@ def Leaf_URLPath (l : Leaf) (vals : List (Bytes × Bytes)) (withOptional : Bool)
 /-- `strconv.Atoi` as leaf.go uses it for `capture:` — the reading of Model/Classify.lean (`atoiGo`); the error is ignored by
 the caller -/
 def route_Atoi (s : Bytes) : Int × Err := (Flamego.atoiGo s, 0)
+
+/-- a compiled `*regexp.Regexp` stands for its expression; `regexp.Compile` and `NumSubexp` are the engine's (`Engine.compile`:
+`none` = the expression does not compile, `some n` = it has `n` capturing groups) -/
+def regexp_Compile (E : Flamego.Engine) (p : Bytes) : Regexp × Err :=
+  match E.compile p with
+  | some _ => (p, 0)
+  | none => ([], 1)
+def Regexp_NumSubexp (E : Flamego.Engine) (re : Regexp) : Int := ((E.compile re).getD 0 : Nat)
+
+/-- a `*bytes.Buffer` is its content -/
+abbrev Buffer := Bytes
+def Buffer_new (s : Bytes) : Buffer := s
+def Buffer_WriteString (b : Buffer) (s : Bytes) : Buffer := b ++ s
+def Buffer_String (b : Buffer) : Bytes := b
+
+/-- the errors `constructMatchStyleRegex` builds, told apart by their format string (the position in the message is a
+detail): 1 empty element, 2 non-regex literal in a parameter list, 3 an expression that does not compile, 4 a bind used
+twice in the segment -/
+def errCode (fmt : Bytes) : Err :=
+  if fmt = B "empty segment element in position %d" then 1
+  else if fmt = B "segment has non-regex literal in position %d" then 2
+  else if fmt = B "compile regexp near position %d" then 3
+  else if fmt = B "duplicated bind parameter %q in position %d" then 4
+  else 9
+def errors_Errorf (fmt : Bytes) : Err := errCode fmt
+def errors_Wrapf (fmt : Bytes) : Err := errCode fmt
 
 end Flamego.Lib
